@@ -230,6 +230,13 @@ def parser_cases(rng: random.Random, tier: str) -> list[dict]:
         dom = rng.choice(DOMS)
         out.append({'dom': dom, 'args': valid_args(rng, dom), 'stream': 'random-valid'})
     out += malformed_cases(rng, n_mut)
+    # the same valid spellings handed over as one-shot iterators (generator / map / iter(...)): judged by the oracle only
+    for _ in range(n_rand // 3):
+        dom = rng.choice(DOMS)
+        args = valid_args(rng, dom)
+        wrapped = [{'iter': a} if isinstance(a, list) and a and not any(isinstance(y, (list, dict)) for y in a) else a for a in args]
+        if wrapped != args:
+            out.append({'dom': dom, 'args': wrapped, 'stream': 'iterator'})
     for i, c in enumerate(out):
         c['builder'] = (i % 4 != 0)      # 3/4 through FilterBuilder.<dom>(*args), 1/4 through helper.get_<dom>(*args)
     return out
